@@ -41,6 +41,7 @@ _SERVE = UNIT.twin(tr._serve_socket_threaded)
 class _Conn:
     def __init__(self, n: int) -> None:
         self.n = n
+        self.closed = 0
 
     def settimeout(self, t) -> None:  # type: ignore[no-untyped-def]
         pass
@@ -48,8 +49,20 @@ class _Conn:
     def fileno(self) -> int:
         return 10 + self.n
 
+    def recv(self, n: int, flags: int = 0) -> bytes:
+        # only peeking is modelled: "has the client hung up?" (b"" = yes; otherwise nothing to read yet)
+        if _HUNG[-1][self.n % 3]:
+            return b""
+        raise BlockingIOError()
+
+    def close(self) -> None:
+        self.closed += 1
+
     def __getattr__(self, name: str):  # type: ignore[no-untyped-def]
         raise HarnessModelError(f"fake connection socket has no .{name}: the accept loop uses more of the socket than the model covers")
+
+
+_HUNG: list = [(False, False, False)]  # per scenario: has client k closed its end while waiting? (symbolic in the C41 items)
 
 
 class _Sock:
@@ -132,9 +145,10 @@ def _main(world, sock, max_conn):  # type: ignore[no-untyped-def]
     return None
 
 
-def _scenario(e0: int, e1: int, e2: int, n_ev: int, mc: int, first: int, pre):  # type: ignore[no-untyped-def]
+def _scenario(e0: int, e1: int, e2: int, n_ev: int, mc: int, first: int, pre, hung=(False, False, False)):  # type: ignore[no-untyped-def]
     s = coop.Scheduler(max_steps=900, untraced=True)
     cz = coop.Scheduler._concretize
+    _HUNG[-1] = tuple(bool(cz(int(h), 0, 1)) for h in hung)
     script = [cz(e0, 0, 1), cz(e1, 0, 1), cz(e2, 0, 1)][: cz(n_ev, 0, 3)]
     mcv = [None, 1, 2][cz(mc, 0, 2)]
     world = _World(mcv)
@@ -209,7 +223,7 @@ def _real_replay(script: list[int], prop: str):  # type: ignore[no-untyped-def]
     def replay(a: dict) -> str | None:
         e = (script + [0, 0, 0])[:3]
         pre = [(a["p1"], a["t1"])] + ([(a["p2"], a["t2"])] if "p2" in a else [])
-        s, world = _scenario(e[0], e[1], e[2], len(script), a["mc"], 0, pre)
+        s, world = _scenario(e[0], e[1], e[2], len(script), a["mc"], 0, pre, _hung_of(a))
         if not [b for b in _problems(s, world, prop) if not is_open(prop + ":" + b)]:
             return None
         mcv = world.max_conn
@@ -241,17 +255,21 @@ def _real_replay(script: list[int], prop: str):  # type: ignore[no-untyped-def]
     return replay
 
 
-def _cell(script: list[int], mc: int, pre, prop: str) -> bool:  # type: ignore[no-untyped-def]
+def _cell(script: list[int], mc: int, pre, prop: str, hung=(False, False, False)) -> bool:  # type: ignore[no-untyped-def]
     e = (script + [0, 0, 0])[:3]
-    s, world = _scenario(e[0], e[1], e[2], len(script), mc, 0, pre)
+    s, world = _scenario(e[0], e[1], e[2], len(script), mc, 0, pre, hung)
     return _verdict(s, world, prop)
+
+
+def _hung_of(a: dict) -> tuple:
+    return (bool(a.get("h0", False)), bool(a.get("h1", False)), bool(a.get("h2", False)))
 
 
 def _cell_sig(script: list[int], prop: str):  # type: ignore[no-untyped-def]
     def sig(a: dict, conc) -> str:  # type: ignore[no-untyped-def]
         e = (script + [0, 0, 0])[:3]
         pre = [(a["p1"], a["t1"])] + ([(a["p2"], a["t2"])] if "p2" in a else [])
-        s, world = _scenario(e[0], e[1], e[2], len(script), a["mc"], 0, pre)
+        s, world = _scenario(e[0], e[1], e[2], len(script), a["mc"], 0, pre, _hung_of(a))
         bad = _problems(s, world, prop)
         return prop + ":" + (bad[0] if bad else "none")
 
